@@ -412,6 +412,10 @@ class Agent(dbus.service.Object):
                 self._logger.debug('%s', traceback.format_exc())
                 break
 
+        if ctr.fragmented:
+            # sent as its fragments instead
+            return
+
         if ctr.route and not ctr.sender:
             # Assume the route is a TxRouteItem
             cl_obj = self._cl_agent.get(ctr.route.cl_type)
